@@ -9,6 +9,8 @@
   * `teval_exact_times_forward` : requests sorted in the direction of integration and inside the span ⇒ over a contiguous
                          history that reaches the end the reported times are the requested list itself (same values, same
                          order, duplicates included) — nothing is skipped by the lower-window filter.
+  * `teval_exact_times_backward`: the same for descending requests on a backward run, obtained from the forward theorem
+                         through `runTimes_mirror` (a backward run is the mirror image of a forward run on negated times).
   * `teval_early_stop_forward`  : after any prefix of the history, reported ++ unreported = requested: what has been
                          reported is a prefix and every unreported request lies strictly beyond the last window.
 -/
